@@ -125,7 +125,9 @@ AddField(f) ==
             \* fields declared with a default that is the zero value of their kind: HasDefault, though Default() is unchanged
             \* (proto3 has no defaults; Valid filters the files where presence is implicit)
             \cup (IF f.syntax = "proto3" THEN {}
-                  ELSE {AppendField(f, i, [NewField(nm, n, 1, z.t, "") EXCEPT !.hd = TRUE, !.def = z.d]) : z \in ZeroDefaultShapes})
+                  ELSE {AppendField(f, i, [NewField(nm, n, 1, z.t, "") EXCEPT !.hd = TRUE, !.def = z.d]) : z \in ZeroDefaultShapes}
+                       \cup {AppendField(f, i, [NewField(nm, n, 1, KEnum, "." \o EnumFullOf(f, r)) EXCEPT !.hd = TRUE, !.def = f.enums[r].vals[1].name]) :
+                               r \in 1..Len(f.enums)})
     : i \in Targets(f)}
 
 \* composite additions at the end of the last message
